@@ -421,6 +421,13 @@ def jobs(tier, seed):
     add('dict')
     add('pandas', gz=False)
     add('pandas', gz=True)
+    if tier == 'thorough':
+        # every ordered pair of observable kinds in one file (column bookkeeping between different chain layouts), tags of every JSON type
+        import itertools
+        kinds = ['range', 'strided', 'irregular', 'odd', 'even', 'prefix', 'rangelike', 'rangelike2', 'replicas', 'sep', 'multi', 'cov', 'covmix', 'jackmix', 'reweighted']
+        tags = [None, 'text', 5, 2.5, True, [1, 'a'], {'k': [1, None]}]
+        for i, (k1, k2) in enumerate(itertools.permutations(kinds, 2)):
+            add('obs', kinds=[k1, k2], tags=[tags[i % len(tags)], tags[(i // 3) % len(tags)]])
     return J
 
 
